@@ -407,6 +407,11 @@ class _Parser:
             if r["kind"] != "remainder":
                 continue
             base, k = _decomp(r["lo"])
+            if base is None:
+                # a constant cut reached only under the outcome n == 0 of one count is the cut at n + k
+                z = self._zero_count(nid)
+                if z is not None:
+                    base, r["lo_ast"] = z
             r.update(base=base, k=k, nid=nid)
             if base is None or has_unknown(r["lo"]):
                 self._problem(f"parse: buffer cut at a position the analysis cannot name: `{r['node'].text()}`", r["node"])
@@ -434,6 +439,30 @@ class _Parser:
             for sp in self.splits:
                 if any(_has(s["base"], ln) for ln in sp["lines"]):
                     s["split"] = sp
+
+    def _zero_count(self, nid: int):
+        """(term, ast) of the one count n whose test outcome ``n == 0`` every path from the entry to ``nid`` takes."""
+        cands = {}
+        for n in self.cfg.nodes:
+            if n.kind != "test":
+                continue
+            e = n.exprs[0]
+            c = _cmp1(self.term(n, e))
+            if not (c and c[0] in ("Eq", "NotEq") and isinstance(e, ast.Compare) and len(e.ops) == 1):
+                continue
+            for t, other, a in ((c[1], c[2], e.left), (c[2], c[1], e.comparators[0])):
+                if other == ("const", 0) and not _is_int(t) and not has_unknown(t):
+                    lab = "T" if c[0] == "Eq" else "F"
+                    cands.setdefault(t, [None, []])
+                    cands[t][0] = a
+                    cands[t][1] += self.cfg.out_edges(n, (lab,))
+        head, _la = self.loop_of(nid)
+        start = self.cfg.entry.id if head is None else head
+        hit = []
+        for t, (a, edges) in cands.items():
+            if _path_from(self.cfg, start, {nid}, avoid_edges=edges, avoid_nodes=() if head is None else {head}) is None:
+                hit.append((t, a))
+        return hit[0] if len(hit) == 1 else None
 
     # -------------------------------------------------------------- queries
     def next_stores(self, nid: int) -> set[int]:
@@ -1772,6 +1801,13 @@ TWIN_FILES = [
 _RF = "aiohomekit/http/response.py"
 _CF = "aiohomekit/controller/ip/connection.py"
 VARIANTS = [
+    {
+        "name": "final chunk cut at the constant 2 before the sufficiency test",
+        "file": _RF,
+        "old": "                if length + 2 > len(self._raw_response):\n                    self._raw_response = line + b\"\\r\\n\" + self._raw_response\n",
+        "new": "                if length == 0:\n                    self._had_empty_chunk = True\n                    self._state = HttpResponse.STATE_DONE\n                    self._raw_response = self._raw_response[2:]\n                    break\n                if length + 2 > len(self._raw_response):\n                    self._raw_response = line + b\"\\r\\n\" + self._raw_response\n",
+        "expect": "C07.T2",
+    },
     {
         "name": "put-back line deleted",
         "file": _RF,
